@@ -28,9 +28,9 @@ ASSUMPTIONS = ['the grammar stores the printed relative sigma under keys '
 
 
 def check(ctx):
-    parsers.check_unit(ctx)
-    parsers.check_flip(ctx)
-    parsers.check_sibling_bins(ctx)
+    ctx.run(parsers.check_unit)
+    ctx.run(parsers.check_flip)
+    ctx.run(parsers.check_sibling_bins)
 
 
 def variants(program):
